@@ -91,6 +91,7 @@ TOK = {n: (b, c) for n, b, c in TOKENS}
 NAMES = [n for n, _, _ in TOKENS]
 REDUCED = ["a", "sq", "dq", "lf", "pct", "bs", "sub", "at"]
 REDUCED3 = ["a", "sq", "dq", "lf", "pct", "bs", "sub", "at", "sp", "esc", "semi", "bsx"]
+FIELDS = ["body", "hvalue", "hname", "path", "query", "method", "hosthdr"]
 
 HOST = b"example.com"
 BASE_URL = b"http://example.com"
@@ -168,6 +169,9 @@ def special_cases():
     out.append(mk("shape", "bad-gzip-body", method=b"POST", headers=[(b"Content-Encoding", b"gzip"), CT_UTF8], content=b"not gzip"))
     out.append(mk("shape", "chunked", method=b"POST", headers=[(b"Transfer-Encoding", b"chunked"), CT_UTF8], content=b"abc"))
     out.append(mk("shape", "asterisk", method=b"OPTIONS", path=b"*"))
+    out.append(mk("shape", "query-empty-brackets", path=b"/p?a[]=1&a[]=2"))
+    out.append(mk("shape", "query-brackets", path=b"/p?a[k]=1"))
+    out.append(mk("shape", "query-braces", path=b"/p?q={\"k\":1}"))
     out.append(mk("shape", "long-body", method=b"POST", headers=[CT_UTF8], content=b"x'y " * 2000))
     # bodies that are / are not valid text
     for ct in (None, CT_UTF8, (b"content-type", b"application/json"), (b"content-type", b"text/plain; charset=latin-1")):
@@ -187,35 +191,24 @@ def special_cases():
 def all_cases(tier):
     thorough = tier == "thorough"
     out = special_cases()
-    for field in ("body", "hvalue"):
-        for s in seqs(NAMES, 2):
-            out.append(field_case(field, s))
-    for field in ("path", "query", "hname"):
-        for s in seqs(NAMES, 2 if thorough else 1):
-            out.append(field_case(field, s))
-    for field in ("method", "hosthdr"):
+    for field in FIELDS:
         for s in seqs(NAMES, 1):
             out.append(field_case(field, s))
-    if not thorough:
-        for a in NAMES:
-            for b in NAMES:
-                out.append(pair_case((a,), (b,)))
-    else:
-        seen = set()
-        for hs in seqs(NAMES, 2):
-            for b in REDUCED:
-                seen.add((hs, (b,)))
-        for bs in seqs(NAMES, 2):
-            for h in REDUCED:
-                seen.add(((h,), bs))
-        for a in NAMES:
-            for b in NAMES:
-                seen.add(((a,), (b,)))
-        for hs, bs in sorted(seen, key=lambda p: (len(p[0]) + len(p[1]), [NAMES.index(x) for x in p[0]], [NAMES.index(x) for x in p[1]])):
-            out.append(pair_case(hs, bs))
-        for s in seqs(REDUCED3, 3):
+    for field in ("body", "hvalue"):
+        for s in seqs(NAMES if thorough else (REDUCED3 if field == "body" else REDUCED), 2):
+            if len(s) == 2:
+                out.append(field_case(field, s))
+    if thorough:
+        for field in ("path", "query", "hname"):
+            for s in seqs(REDUCED3, 2):
+                if len(s) == 2:
+                    out.append(field_case(field, s))
+        for s in seqs(REDUCED, 3):
             if len(s) == 3:
                 out.append(field_case("body", s))
+    for a in (NAMES if thorough else REDUCED):
+        for b in (NAMES if thorough else REDUCED3):
+            out.append(pair_case((a,), (b,)))
     return out
 
 
@@ -225,6 +218,8 @@ def all_cases(tier):
 TOKEN_RE = re.compile(rb"^[!#$%&'*+\-.^_`|~0-9A-Za-z]+$")
 OWS = b" \t"
 WS = b" \t\r\n\x0b\x0c"
+# curl globs {..} sets and [..] ranges in URLs unless -g is given (a literal "[]" is passed through)
+CURL_GLOB = re.compile(rb"[{}]|\[(?!\])")
 
 
 def expected_text(case):
@@ -290,6 +285,8 @@ def expected_urls(case):
             m = re.match(rb"^(.*):(\d+)$", v)
             if m and m.group(2) == b"80":
                 urls.add(b"http://" + m.group(1) + path)
+            if v.startswith(b"[") and v.endswith(b"]"):  # an address literal may be re-bracketed
+                urls.add(b"http://" + v[1:-1] + path)
     return urls
 
 
@@ -323,11 +320,16 @@ def flags(case):
         f["h_empty"] = True
     if any(n.startswith(b"@") for n, _ in hdrs):
         f["h_at"] = True
-    if any(re.search(rb"[=@;:]", n) for n, _ in hdrs):
+    if any(re.search(rb"[=@;:\\]", n) for n, _ in hdrs):
         f["hn_sep"] = True
-    if any(re.search(rb"[\[\]{}]", u) for u in expected_urls(case)):
+    if any(CURL_GLOB.search(u) for u in expected_urls(case)):
         f["url_glob"] = True
     return f
+
+
+def up(b: bytes) -> str:
+    """methods are compared the way the Request API presents them (text, upper-cased)"""
+    return b.decode("utf-8", "surrogateescape").upper()
 
 
 def wire_representable(case):
@@ -507,7 +509,7 @@ def curl_read(args):
             r["bad"].append("unknown option %r" % a[:40])
             i += 1
         else:
-            if re.search(rb"[\[\]{}]", a):
+            if CURL_GLOB.search(a):
                 r["bad"].append("URL is globbed ([]{} without -g)")
             r["urls"].append(a)
             i += 1
@@ -631,12 +633,13 @@ def one(case, t: Tally, verbose=False):
             reached = True
             r = curl_read(res["runs"][0][0][1:])
             problems = list(r["bad"])
-            if r["eff_method"] != case["method"]:
+            if up(r["eff_method"]) != up(case["method"]):  # Request.method is upper-cased by the API
                 problems.append(["method", r["eff_method"]])
             if len(r["urls"]) != 1 or r["urls"][0] not in urls:
                 problems.append(["url", r["urls"]])
-            if r["headers"] != exp_h:
-                problems.append(["headers", r["headers"], "removed", r["removed"]])
+            got_h = [(n, v) for n, v in r["headers"] if n.lower() != b"content-length"]
+            if got_h != exp_h:
+                problems.append(["headers", got_h, "removed", r["removed"]])
             elif [n for n in r["removed"] if n.lower() != b"content-length"]:
                 problems.append(["removes headers", r["removed"]])
             if r["compressed"] != exp_comp:
@@ -689,7 +692,7 @@ def one(case, t: Tally, verbose=False):
             reached = True
             r = httpie_read(res["runs"][0][0][1:])
             problems = list(r["bad"])
-            if r["method"] != case["method"]:
+            if up(r["method"] or b"") != up(case["method"]):
                 problems.append(["method", r["method"]])
             if r["url"] not in urls:
                 problems.append(["url", r["url"]])
@@ -751,10 +754,11 @@ def run(ctx):
     cases = all_cases(ctx.tier)
     ctx.bounds = {
         "tokens": {n: repr(b) for n, b, _ in TOKENS},
-        "fields_two_tokens": ["body", "hvalue"] + (["path", "query", "hname"] if ctx.thorough else []),
-        "fields_one_token": ["method", "hosthdr"] + ([] if ctx.thorough else ["path", "query", "hname"]),
-        "pairs_hvalue_x_body": "1x1 tokens" if not ctx.thorough else "1x1, (<=2 tokens) x reduced %s and reduced x (<=2 tokens)" % REDUCED,
-        "body_three_tokens_over": REDUCED3 if ctx.thorough else [],
+        "one_field_deviates_one_token": FIELDS,
+        "two_tokens": {"body": "all tokens" if ctx.thorough else REDUCED3, "hvalue": "all tokens" if ctx.thorough else REDUCED,
+                       "path,query,hname": REDUCED3 if ctx.thorough else []},
+        "body_three_tokens_over": REDUCED if ctx.thorough else [],
+        "pairs_hvalue_x_body": "all x all single tokens" if ctx.thorough else "%s x %s" % (REDUCED, REDUCED3),
         "special_cases": len(special_cases()),
         "cases": len(cases),
         "export_preserve_original_ip": [False, True],
